@@ -161,14 +161,16 @@ fn full_client_capabilities() -> Value {
     })
 }
 
+/// the document URI as the editor sends it; some editors percent-encode more characters than the url crate does ("+" as "%2B")
 fn uri_of(dir: &str, file: &str) -> String {
-    format!("file://{}/{}", dir, file)
+    format!("file://{}/{}", dir, file).replace('+', "%2B")
 }
 
 /// What a received message says, in the abstract vocabulary (file names relative to the run dir).
 fn project_incoming(dir: &str, msg: &Value, methods: &HashMap<u64, (String, String)>) -> Value {
     let rel = |uri: &str| -> String {
-        uri.strip_prefix(&format!("file://{}/", dir)).unwrap_or(uri).to_string()
+        let uri = uri.replace("%2B", "+");
+        uri.strip_prefix(&format!("file://{}/", dir)).unwrap_or(&uri).to_string()
     };
     if msg.get("method").and_then(|m| m.as_str()) == Some("textDocument/publishDiagnostics") {
         let p = &msg["params"];
